@@ -2,7 +2,7 @@
     [Definition <m>_stmt (f : <type of m>) : Prop]; Gen/PropLib.v proves [<m>_stmt <m>] right after
     the translated definition of [<m>] (by [lib_spec], or by [Ltac <m>_proof] when one is given here). *)
 From Coq Require Import NArith List Bool.
-From Pi2 Require Import ML.Syntax ML.Subst Lib.Term Lib.TermFacts Lib.Tactics.
+From Pi2 Require Import ML.Syntax ML.Subst Lib.Term Lib.TermFacts Lib.Tactics Lib.Match.
 Import ListNotations.
 Open Scope N_scope.
 
@@ -23,3 +23,67 @@ Definition or_cong_stmt (f : thunk -> thunk -> thunk) : Prop :=
   forall pf1 pf2 a b c d,
     conc pf1 = Some (p_equiv a b) -> conc pf2 = Some (p_equiv c d) ->
     conc (f pf1 pf2) = Some (p_equiv (p_or a c) (p_or b d)).
+
+(** tautology.py:166-182, 294-327: rules that first instantiate one premise with the map
+    [match_single] returns (docstring is prose: "Same as imp_transitivity but h1 is instantiated to
+    match h2").  Exact characterisation, including when they raise ([None]); the instantiated premise
+    must be plain (no constrained metavariable / pending substitution: there the generator's
+    instantiate and the checker's differ, DESIGN D9). *)
+Definition imp_trans_match1_stmt (f : thunk -> thunk -> thunk) : Prop :=
+  forall h1 h2 a b c d, conc h1 = Some (Imp a b) -> conc h2 = Some (Imp c d) ->
+    plain a = true -> plain b = true ->
+    conc (f h1 h2) = match match_single b c [] with
+                     | Some th => Some (Imp (pinst th a) d) | None => None end.
+Definition imp_trans_match2_stmt (f : thunk -> thunk -> thunk) : Prop :=
+  forall h1 h2 a b c d, conc h1 = Some (Imp a b) -> conc h2 = Some (Imp c d) ->
+    plain c = true -> plain d = true ->
+    conc (f h1 h2) = match match_single c b [] with
+                     | Some th => Some (Imp a (pinst th d)) | None => None end.
+Definition equiv_match_l_stmt (f : thunk -> pat -> thunk) : Prop :=
+  forall h p a b, conc h = Some (p_equiv a b) -> plain a = true -> plain b = true ->
+    conc (f h p) = match match_single a p [] with
+                   | Some th => Some (p_equiv p (pinst th b)) | None => None end.
+Definition equiv_match_r_stmt (f : thunk -> pat -> thunk) : Prop :=
+  forall h p a b, conc h = Some (p_equiv a b) -> plain a = true -> plain b = true ->
+    conc (f h p) = match match_single b p [] with
+                   | Some th => Some (p_equiv (pinst th a) p) | None => None end.
+Definition equiv_trans_match1_stmt (f : thunk -> thunk -> thunk) : Prop :=
+  forall h1 h2 a b c d, conc h1 = Some (p_equiv a b) -> conc h2 = Some (p_equiv c d) ->
+    plain a = true -> plain b = true ->
+    conc (f h1 h2) = match match_single b c [] with
+                     | Some th => Some (p_equiv (pinst th a) d) | None => None end.
+Definition equiv_trans_match2_stmt (f : thunk -> thunk -> thunk) : Prop :=
+  forall h1 h2 a b c d, conc h1 = Some (p_equiv a b) -> conc h2 = Some (p_equiv c d) ->
+    plain c = true -> plain d = true ->
+    conc (f h1 h2) = match match_single c b [] with
+                     | Some th => Some (p_equiv a (pinst th d)) | None => None end.
+
+Create HintDb plm.
+Lemma dynamic_inst_plain_spec' : forall X d p S,
+  conc X = Some p -> plain p = true -> pinst d p = S -> conc (dynamic_inst X d) = Some S.
+Proof. intros X d p S H1 H2 <-. now apply dynamic_inst_plain_spec. Qed.
+#[global] Hint Resolve dynamic_inst_plain_spec' : plm.
+#[global] Hint Extern 1 (plain _ = true) =>
+  cbn [plain]; repeat match goal with H : plain _ = true |- _ => rewrite H end; reflexivity : plm.
+
+Ltac match_rule_proof m :=
+  intros; unfold m; lib_norm; cbn zeta;
+  match goal with
+  | |- context [match_single ?b ?c []] =>
+      let th := fresh "th" in
+      let M := fresh "M" in
+      destruct (match_single b c []) as [th|] eqn:M; cbn [bindc]; [|reflexivity];
+      match goal with
+      | Hb : plain b = true |- _ =>
+          let P := fresh "P" in
+          destruct (match_single_sound b c [] th Hb M) as (_ & _ & P); subst c
+      end
+  end;
+  solve [ eauto 60 with pl plm nocore ].
+
+Ltac imp_trans_match1_proof m := match_rule_proof m.
+Ltac imp_trans_match2_proof m := match_rule_proof m.
+Ltac equiv_match_l_proof m := match_rule_proof m.
+Ltac equiv_match_r_proof m := match_rule_proof m.
+Ltac equiv_trans_match1_proof m := match_rule_proof m.
+Ltac equiv_trans_match2_proof m := match_rule_proof m.
